@@ -181,21 +181,39 @@ def rule_correspondence(repo, rule):
         fi = bc.methods[name]
         s_, o_ = fi.params
         n_arms = 0
+        from ..hints import paths_to, Path
         for c in ast.walk(fi.node):
             if isinstance(c, ast.Call) and norm(c.func) == "LinCombBool" and c.args:
-                v = Valuer({s_: P.sym("a"), o_: P.sym("b")})
-                try:
-                    p = v._p(c.args[0])
-                except (Undecidable, NeedCase):
-                    rule.undecided(fi.loc(c), fi.fq, norm(c), "not interpretable")
-                    continue
-                n_arms += 1
-                table = tuple(int(p.evaluate({"a": x, "b": y})) for x in (0, 1) for y in (0, 1)) if p.symbols() <= {"a", "b"} else None
-                if table == tt:
-                    rule.ok(fi.loc(c), fi.fq, "%s: %s" % (name, p), "truth table %s" % (table,))
-                else:
-                    rule.violation(fi.loc(c), fi.fq, "%s: %s has table %s" % (name, p, table), "Boolean operator does not have the truth "
-                                   "table of `%s`" % OPSYM[name.strip("_")], "bool/%s/%s" % (name, norm(c.args[0])[:30]))
+                # path by path: a local bound to the converted operand (`_ensurebool(other)[.lc]`) or to its 0/1
+                # normalisation (`1 if other else 0`) stands for the operand's truth value b
+                for path in (paths_to(fi.node, c) or [Path()]):
+                    env = {s_: P.sym("a"), o_: P.sym("b")}
+                    for step in path.steps:
+                        if step[0] != "assign":
+                            continue
+                        nm, val = step[1], step[2]
+                        vt = norm(val)
+                        if ("_ensurebool(%s)" % o_) in vt and isinstance(val, (ast.Call, ast.Attribute)):
+                            env[nm] = P.sym("b")
+                        elif isinstance(val, ast.IfExp) and norm(val.body) == "1" and norm(val.orelse) == "0" and norm(val.test) == o_:
+                            env[nm] = P.sym("b")
+                        else:
+                            try:
+                                env[nm] = Valuer(dict(env))._p(val)
+                            except (Undecidable, NeedCase):
+                                env[nm] = P.sym("?" + nm)
+                    try:
+                        p = Valuer(env)._p(c.args[0])
+                    except (Undecidable, NeedCase):
+                        rule.undecided(fi.loc(c), fi.fq, norm(c), "not interpretable")
+                        continue
+                    n_arms += 1
+                    table = tuple(int(p.evaluate({"a": x, "b": y})) for x in (0, 1) for y in (0, 1)) if p.symbols() <= {"a", "b"} else None
+                    if table == tt:
+                        rule.ok(fi.loc(c), fi.fq, "%s: %s" % (name, p), "truth table %s" % (table,))
+                    else:
+                        rule.violation(fi.loc(c), fi.fq, "%s: %s has table %s" % (name, p, table), "Boolean operator does not have the truth "
+                                       "table of `%s`" % OPSYM[name.strip("_")], "bool/%s/%s" % (name, norm(c.args[0])[:30]))
         if n_arms < 2:
             rule.undecided(fi.loc(), fi.fq, name, "expected a wire arm and a constant arm")
     inv = bc.methods["__invert__"]
@@ -519,6 +537,12 @@ def check(repo, rep, tier):
     rule_primitive_hints(repo, r9)
     r10 = rep.rule("R-C05-10", "`~` is applied to Boolean wires only, never to plain integers", floor=2)
     rule_int_invert(repo, r10)
+    r11 = rep.rule("R-C05-11", "mixed integer / fixed-point comparisons are performed at one scale (shared with C14)", floor=6)
+    from .c14 import rule_integer_side
+    rule_integer_side(repo, r11)
+    r12 = rep.rule("R-C05-12", "selection returns the chosen alternative (shared with C02)", floor=2)
+    from .c02 import rule_selection
+    rule_selection(repo, r12)
     r6 = rep.rule("R-C05-6", "'or raises' is not silently switched off: guard state is restored exactly (shared with C08)", floor=10)
     from .c08 import guard_discipline
     guard_discipline(repo, r6)
